@@ -157,20 +157,31 @@ PEdgesOK(r) == /\ Len(r.edges) >= 2
                   ELSE /\ \A k \in 1..(Len(r.edges) - 1) : HiRCmp(r.edges[k + 1], r.edges[k]) < 0      \* cosines decrease
                        /\ \A s \in DOMAIN r.scale : HiChebOK(r.scale[s], r.edges[Len(r.edges)])
 
-PObsFailing(r, o) ==
+\* the allowed bins of every pair, the least and the largest admissible count of every bin: evaluated once per record
+PBinTable(r) == [pr \in PPairs(r) |-> PBins(r, pr[1], pr[2])]
+PMustOf(r, t) == [b \in 0..(PNBin(r) - 1) |-> Cardinality({pr \in DOMAIN t : t[pr] = {b}})]
+PMayOf(r, t)  == [b \in 0..(PNBin(r) - 1) |-> Cardinality({pr \in DOMAIN t : b \in t[pr]})]
+PBelowOf(r, t) == \E pr \in DOMAIN t : t[pr] = {-1} /\ ~HiSame(r.lat, r.p1[pr[1]], r.p2[pr[2]])
+
+PObsFailingT(r, o, must, may, below) ==
     IF o.err # "none" THEN {"unexpected_error"}
     ELSE IF Len(o.counts) # PNBin(r) THEN {"counts_length"}
-    ELSE LET low  == {b \in 0..(PNBin(r) - 1) : o.counts[b + 1] < PMust(r, b)}
-             high == {b \in 0..(PNBin(r) - 1) : o.counts[b + 1] > PMay(r, b)}
+    ELSE LET low  == {b \in 0..(PNBin(r) - 1) : o.counts[b + 1] < must[b]}
+             high == {b \in 0..(PNBin(r) - 1) : o.counts[b + 1] > may[b]}
          IN (IF low = {} THEN {} ELSE {"pairs_missing"}) \cup
-            (IF 0 \in high THEN {IF PBelow(r) # {} THEN "extra_in_first_bin_with_pairs_below_rmin" ELSE "extra_in_first_bin"} ELSE {}) \cup
+            (IF 0 \in high THEN {IF below THEN "extra_in_first_bin_with_pairs_below_rmin" ELSE "extra_in_first_bin"} ELSE {}) \cup
             (IF high \ {0} # {} THEN {"extra_in_later_bin"} ELSE {})
+PObsFailing(r, o) == LET t == PBinTable(r) IN PObsFailingT(r, o, PMustOf(r, t), PMayOf(r, t), PBelowOf(r, t))
 
 PairFailing(r) ==
     IF ~PEdgesOK(r) THEN {"MACHINERY_malformed_case"}
-    ELSE UNION {PObsFailing(r, r.obs[n]) : n \in DOMAIN r.obs} \cup
-         (IF \A n, m \in DOMAIN r.obs : (r.obs[n].err = "none" /\ r.obs[m].err = "none") => r.obs[n].counts = r.obs[m].counts
-          THEN {} ELSE {"ways_of_calling_differ"})
+    ELSE LET t     == PBinTable(r)
+             must  == PMustOf(r, t)
+             may   == PMayOf(r, t)
+             below == PBelowOf(r, t)
+         IN UNION {PObsFailingT(r, r.obs[n], must, may, below) : n \in DOMAIN r.obs} \cup
+            (IF \A n, m \in DOMAIN r.obs : (r.obs[n].err = "none" /\ r.obs[m].err = "none") => r.obs[n].counts = r.obs[m].counts
+             THEN {} ELSE {"ways_of_calling_differ"})
 
 \* the brute-force count when nothing is ambiguous
 PUnambiguous(r) == \A pr \in PPairs(r) : ~PTie(r, pr[1], pr[2])
